@@ -265,6 +265,23 @@ func (w *Worker) runPath(prefix []Decision) {
 		}()
 		call(i, nil, 0, w.harnessFn, nil)
 	}()
+	if end == "ok" && len(w.samples) < w.cfg.Samples {
+		func() {
+			defer func() { recover() }()
+			i.p = p
+			p.ensureModel()
+			i.p = nil
+			m := map[string]uint64{}
+			for _, v := range p.inputs {
+				m[v.name] = p.model[v.name]
+			}
+			ch := map[string]uint64{}
+			for k, v := range p.choices {
+				ch[k] = v
+			}
+			w.samples = append(w.samples, PathSample{Decisions: p.decStr(), Model: m, Choices: ch, Observed: p.observed, End: end})
+		}()
+	}
 	if end == "solver" {
 		w.solverDirty = true
 	} else {
@@ -304,23 +321,6 @@ func (w *Worker) runPath(prefix []Decision) {
 		ex.cond.Broadcast()
 	}
 	ex.mu.Unlock()
-	if end == "ok" && len(w.samples) < w.cfg.Samples {
-		func() {
-			defer func() { recover() }()
-			i.p = p
-			p.ensureModel()
-			i.p = nil
-			m := map[string]uint64{}
-			for _, v := range p.inputs {
-				m[v.name] = p.model[v.name]
-			}
-			ch := map[string]uint64{}
-			for k, v := range p.choices {
-				ch[k] = v
-			}
-			w.samples = append(w.samples, PathSample{Decisions: p.decStr(), Model: m, Choices: ch, Observed: p.observed, End: end})
-		}()
-	}
 }
 
 func firstLines(s string, n int) string {
